@@ -1,5 +1,6 @@
 import Knut.Proofs.SyntaxRoundTrip
 import Knut.Proofs.SyntaxExamples
+import Knut.Proofs.SyntaxSem
 /-!
 # C08 — format preserves meaning and comments and is idempotent
 
@@ -73,7 +74,42 @@ theorem C08_command (path : String) (text : Bytes) :
     obtain ⟨out, f2, hf, hp, hv, _, hg, hi⟩ := roundtrip h
     exact Or.inl ⟨f, out, f2, rfl, by simp [formatFile, h, hf], hp, hv, hg, by simp [formatFile, hp, hi]⟩
 
+/-! ## The monitor
+
+The theorems above speak about the typed field views (`viewDirective`); the monitor of the check evaluates
+`formatOK` (`Spec/SyntaxFormat.lean`) on the two dumped trees: equality of the untyped `semFlat` (kinds and field
+bytes in prefix order, which also shows the macro kind of an account and the `addons` node) and of the gaps. -/
+
+/-- **the monitor's predicate and the theorems' notion of "same fields" coincide on parsed files**: for two texts
+that parse, `formatOK` holds of the two trees iff the directives' field views agree and the gaps agree. (For a tree
+the parser returned, the kind of an account node and the presence of the annotation nodes are functions of the field
+bytes: `Proofs/SyntaxSem.lean`.) -/
+theorem C08_monitor_iff {path : String} {text out : Bytes} {f f2 : File}
+    (h : parseText path text = .ok f) (h2 : parseText path out = .ok f2) :
+    formatOK text f.toNode out f2.toNode = true ↔
+      (f2.directives.mapM (viewDirective out) = f.directives.mapM (viewDirective text) ∧
+       gapsOf out 0 (f2.directives.map (·.range)) = gapsOf text 0 (f.directives.map (·.range))) :=
+  formatOK_iff h h2
+
+/-- **the monitor's predicate holds of the model**: the formatted text parses and `formatOK` holds between the tree of
+the input and the tree of the output. -/
+theorem C08_monitor_sound {path : String} {text : Bytes} {f : File} {out : Bytes}
+    (h : parseText path text = .ok f) (ho : format text f = some out) :
+    ∃ f2, parseText path out = .ok f2 ∧ formatOK text f.toNode out f2.toNode = true := by
+  obtain ⟨f2, hp, hv, _, hg⟩ := C08_reparse_same_fields h ho
+  exact ⟨f2, hp, (C08_monitor_iff h hp).mpr ⟨hv, hg⟩⟩
+
 /-! ## Non-vacuity -/
+
+/-- the monitor accepts the worked example against itself … -/
+example : formatOK (bytesOf exText) (File.toNode ⟨⟨0, 23⟩, [⟨⟨3, 22⟩, .open ⟨⟨3, 22⟩, ⟨⟨3, 13⟩⟩, ⟨⟨19, 22⟩, false⟩⟩⟩]⟩)
+    (bytesOf exText) (File.toNode ⟨⟨0, 23⟩, [⟨⟨3, 22⟩, .open ⟨⟨3, 22⟩, ⟨⟨3, 13⟩⟩, ⟨⟨19, 22⟩, false⟩⟩⟩]⟩) = true :=
+  (C08_monitor_iff ex_parse ex_parse).mpr ⟨rfl, rfl⟩
+
+/-- … and rejects a tree whose account field points to other bytes -/
+example : formatOK (bytesOf exText) (File.toNode ⟨⟨0, 23⟩, [⟨⟨3, 22⟩, .open ⟨⟨3, 22⟩, ⟨⟨3, 13⟩⟩, ⟨⟨19, 22⟩, false⟩⟩⟩]⟩)
+    (bytesOf exText) (File.toNode ⟨⟨0, 23⟩, [⟨⟨3, 22⟩, .open ⟨⟨3, 22⟩, ⟨⟨3, 13⟩⟩, ⟨⟨21, 22⟩, false⟩⟩⟩]⟩) = false := by
+  decide
 
 /-- the worked example of C07 (a comment line and an `open` directive) is already formatted … -/
 example : format (bytesOf "#c\n2020-01-01 open A:B\n")
